@@ -461,6 +461,14 @@ func replayWrite(ctx *runCtx, tag string) bool {
 		runWriteCases(ctx, []*WriteCase{&c}, tag)
 		return true
 	}
+	var c5 c05Case
+	if err := loadReplay(ctx.replay, &c5); err == nil && c5.Writers > 0 {
+		if sh, w := runC05Case(c5); sh != "" {
+			ctx.rep.violate(Violation{Kind: "property", Shape: "concurrent-writers:" + sh, What: w, Replay: c5})
+		}
+		ctx.rep.eval("replay")
+		return true
+	}
 	return replayRead(ctx)
 }
 
@@ -498,6 +506,17 @@ func runC01(ctx *runCtx) {
 		}
 	}
 	runWriteCases(ctx, cases, "C01")
+	// "one message per call" also when calls overlap: several goroutines writing at the same time on one connection (the
+	// scenario runner of C05, whose oracle demands that every message the peer receives is exactly one written message)
+	for i := 0; i < 8; i++ {
+		cc := c05Case{Client: i%2 == 0, Flate: i % 3, Writers: 2 + i%4, Closer: "none", Seed: ctx.seed*100 + int64(i), PeerIsLib: i%4 == 3}
+		sh, w := guarded(60*time.Second, func() (string, string) { return runC05Case(cc) })
+		ctx.rep.eval(fmt.Sprintf("concurrent-writers/%+v", cc))
+		ctx.rep.count("concurrent-writers")
+		if sh != "" {
+			ctx.rep.violate(Violation{Kind: "property", Shape: "concurrent-writers:" + sh, What: w, Replay: cc})
+		}
+	}
 	windowAndTrimDifferential(ctx.rep, rng, ctx.thorough())
 	// end to end through a real handshake: Dial against Accept for every pair of compression modes, then
 	// messages that refer back to earlier ones, both directions (what the two ends negotiated decides
@@ -538,6 +557,18 @@ func runC02(ctx *runCtx) {
 	}
 	for i := 0; i < 8; i++ {
 		cases = append(cases, genPingInsideCase(rng, 1+2*(i%2)))
+	}
+	// every boundary of the length encoding as the payload of one uncompressed frame, by Write and as a Writer chunk, both roles
+	for _, client := range []bool{true, false} {
+		var ws, cs []WriteOp
+		for _, sz := range []int{0, 1, 124, 125, 126, 127, 65534, 65535, 65536, 65537} {
+			ws = append(ws, WriteOp{Kind: "write", Typ: 1 + sz%2, Chunks: []string{hx(genPayload(rng, sz))}})
+			if sz > 125 {
+				cs = append(cs, WriteOp{Kind: "writer", Typ: 2, Chunks: []string{hx(genPayload(rng, 7)), hx(genPayload(rng, sz)), hx(genPayload(rng, 3))}})
+			}
+		}
+		cases = append(cases, &WriteCase{Client: client, Ops: ws, Desc: "length-encoding boundaries by Write"},
+			&WriteCase{Client: client, Ops: cs, Desc: "length-encoding boundaries as Writer chunks"})
 	}
 	runWriteCases(ctx, cases, "C02")
 	// parameters obtained through a real handshake, asymmetric ones from a foreign peer included: the library
